@@ -127,6 +127,10 @@ class NamespaceFunction(Namespace[symtable.Function]):
                 # free/nonlocal inevitablely exist in outer function namespace
                 # so check is not need here.
                 outer_symbol = outer.symt.lookup(nonlocal_free)
+                if outer_symbol.is_free():
+                    # the name only passes through this scope
+                    # (declared nonlocal there, or captured itself)
+                    continue
                 if (
                     outer_symbol.is_assigned()
                     or outer_symbol.is_imported()
@@ -238,6 +242,10 @@ class NamespaceClass(Namespace[symtable.Class]):
                 # free/nonlocal inevitablely exist in outer function namespace
                 # so check is not need here.
                 outer_symbol = outer.symt.lookup(nonlocal_free)
+                if outer_symbol.is_free():
+                    # the name only passes through this scope
+                    # (declared nonlocal there, or captured itself)
+                    continue
                 if (
                     outer_symbol.is_assigned()
                     or outer_symbol.is_imported()
